@@ -56,7 +56,8 @@ def drive(ctx):
             if en.startswith("format_diff"):
                 ctx.emit("humanize", {"entry": "format_diff", "is_now": en.endswith("now"), "absolute": ab, "locale": loc}, [x, y])
             elif en == "diff_for_humans":
-                ctx.emit("humanize", {"entry": en, "is_now": False, "absolute": ab, "locale": loc}, [x, y])
+                ctx.emit("humanize", dict({"entry": en, "is_now": False, "absolute": ab, "locale": loc},
+                                          **({"via": "default"} if n % 3 == 0 else {})), [x, y])
             else:
                 ctx.emit("humanize", {"entry": en, "is_now": True, "absolute": ab, "locale": loc}, [x, y])
     # thresholds of the round-up rules and mixed components
@@ -97,7 +98,8 @@ def drive(ctx):
         for dd in (pick(rnd, durs, 5) if q else durs):
             a = {k: 0 for k in ("y", "mo", "w", "d", "h", "mi", "s", "ms", "us")}
             a.update(dd)
-            ctx.emit("in_words", {"entry": "duration", "locale": loc, "sep": cps((" ", ", ", " - ")[n % 3])}, [{"k": "dur", "args": a}])
+            ctx.emit("in_words", dict({"entry": "duration", "locale": loc, "sep": cps((" ", ", ", " - ")[n % 3])},
+                                      **({"via": "default"} if n % 2 == 0 else {})), [{"k": "dur", "args": a}])
             n += 1
         for (unit, c, extra) in (pick(rnd, extras, 3) if q else extras):
             ctx.emit("in_words", {"entry": "interval", "locale": loc, "sep": cps(" ")}, [base, shifted(unit, c, extra)])
